@@ -375,13 +375,18 @@ func (s *Sim) loop() {
 		r := s.runnable()
 		s.mu.Unlock()
 		if len(r) == 0 {
-			wait := time.Until(s.lastAct.Add(s.cfg.Horizon))
+			deadline := s.lastAct.Add(s.cfg.Horizon)
+			wait := time.Until(deadline)
 			if wait > 0 {
 				t := time.NewTimer(wait)
 				select {
 				case <-s.arrv:
 					t.Stop()
-					continue
+					// an arrival at the very instant the horizon is reached (a daemon's ticker, say) makes both cases ready
+					// and Go's select picks at random: treat that coincidence as "horizon reached", whichever case won
+					if time.Now().Before(deadline) {
+						continue
+					}
 				case <-t.C:
 				}
 				// re-check after the clock moved
